@@ -130,3 +130,5 @@ harness! {
         assert!(POW2MINX.len() == 256, "C20 one power per register value");
     }
 }
+
+// (count() itself cannot be executed by Kani: bytecount's runtime-dispatched SIMD intrinsics are unsupported)
